@@ -1,7 +1,7 @@
 #!/bin/bash
 # usage: tools/try_mutant.sh <patch.diff> <tier> <ID>...   — apply a seeded change to /repo, run the checks, undo it.
 set -u
-PATCH=$1; TIER=$2; shift 2
+PATCH=$(readlink -f "$1"); TIER=$2; shift 2
 cd /verif
 if [ -n "$(git -C /repo status --porcelain -- src Cargo.toml)" ]; then echo "refusing: /repo has uncommitted changes"; exit 3; fi
 git -C /repo apply "$PATCH" || { echo "patch does not apply"; exit 3; }
